@@ -6,7 +6,7 @@ RUN = "monitor"
 TAGS = {2, 4, 5, 8, 10, 11}
 RULE = ("every datagram may be duplicated 1-3 times at later instants (incl. the connection-creating Initial via a "
         "duplication mask over the first datagrams), replayed from the same or from an attacker address, bit-flipped, "
-        "truncated, extended, or replaced by random bytes, interleaved with key updates; resumption while the previous connection's datagrams are replayed (stateless resets and forged Initial-shaped datagrams carrying the OLD connection's reset tokens), server restarts (genuine resets); non-trivial = at least 3 "
+        "truncated, extended, or replaced by random bytes, interleaved with key updates; resumption while the previous connection's datagrams are replayed (stateless resets and forged Initial-shaped datagrams carrying the OLD connection's reset tokens), server restarts (genuine resets); forged resets carrying the token of a server CID the client has retired; non-trivial = at least 3 "
         "duplicated/replayed/corrupted datagrams reached an endpoint")
 
 
@@ -53,6 +53,20 @@ def gen(rng, n):
             d.pop("KEYUPD_S", None)
             if d.get("CID_LEN") == 0:
                 d["CID_LEN"] = 8
+        elif m == 2:
+            # the client moves and thereby switches to a fresh server CID (the first one is retired); a
+            # forged datagram ending in the reset token of the RETIRED CID must not end the connection
+            d = S.base(rng, small=False)
+            d["DELAY_MIN"] = d["DELAY_MAX"] = rng.choice([5000, 10000, 30000])
+            d["STREAM_BYTES"] = rng.choice([300000, 1000000])
+            d["WRITE_CHUNK"] = 100000
+            d["READ_MAX"] = 100000
+            d["NBIDI"] = 1
+            d["ECHO_BYTES"] = rng.choice([0, 100000])
+            d["MIGRATE_AT"] = 2 * d["DELAY_MIN"] * rng.range(4, 8)
+            d["MIGRATE_KIND"] = rng.below(2)
+            d["RESET_FORGE"] = 2
+            d["CLOSER"] = 0
         elif m == 1:
             # the server process restarts: genuine stateless resets end exactly the connections whose
             # datagrams provoked them
